@@ -303,7 +303,7 @@ func caseForReport(c wtCase) any {
 func TestC13(t *testing.T) {
 	r := rep.New(t, "C13")
 	defer r.Flush()
-	r.Rule("PRNG cases = (writer role, write/read buffer size, pool, read fragmentation, 1-20 messages each with kind, length class around 0/125/126/buffer/2*buffer/65535/65536/large, write API, chunking); non-trivial and distinct = distinct (api, kind, length class, buffer size, role, fragmentation class) tuples actually round-tripped")
+	r.Rule("PRNG cases = (writer role, write/read buffer size, pool, read fragmentation, 1-20 messages each with kind, length class around 0/125/126/buffer/2*buffer/65535/65536/large, write API incl. a reader that returns its last chunk together with io.EOF, chunking); non-trivial and distinct = distinct (api, kind, length class, buffer size, role, fragmentation class) tuples actually round-tripped")
 	n := r.N(2500, 300000)
 	rng := r.Rand(13)
 	for i := 0; i < n; i++ {
